@@ -110,7 +110,7 @@ pub mod digest_stub {
         pub alg: *const Algorithm,
         pub len: usize,
         pub data: [u8; DATA_CAP],
-        pub out: [u64; 8],
+        pub out: [u8; 64],
     }
 
     pub struct Table {
@@ -118,14 +118,14 @@ pub mod digest_stub {
         pub e: [Entry; CAP],
     }
 
-    const EMPTY: Entry = Entry { alg: core::ptr::null(), len: 0, data: [0; DATA_CAP], out: [0; 8] };
+    const EMPTY: Entry = Entry { alg: core::ptr::null(), len: 0, data: [0; DATA_CAP], out: [0; 64] };
     pub static mut TABLE: Table = Table { n: 0, e: [EMPTY; CAP] };
 
     /// Mirror of ring 0.17's `Digest` (private fields); the layout is asserted by `layout_ok`.
     #[repr(C)]
     struct Mirror {
         algorithm: &'static Algorithm,
-        value: [u64; 8],
+        value: [u8; 64],
     }
 
     /// `digest(alg, data)`: same (alg, data) -> same output; new input -> fresh symbolic output.
@@ -145,6 +145,8 @@ pub mod digest_stub {
                         k += 1;
                     }
                     if same {
+                        *core::ptr::addr_of_mut!(LAST) = e.out;
+                        *core::ptr::addr_of_mut!(LAST_LEN) = algorithm.output_len();
                         return core::mem::transmute::<Mirror, Digest>(Mirror { algorithm, value: e.out });
                     }
                 }
@@ -152,7 +154,13 @@ pub mod digest_stub {
             }
             assert!(t.n < CAP, "ENV:digest-table-full");
             assert!(data.len() <= DATA_CAP, "ENV:digest-input-too-long");
-            let out: [u64; 8] = kani::any();
+            let mut out: [u8; 64] = kani::any();
+            // optionally pin the first two output bytes (they decide the length of an INTEGER built from the digest)
+            let fix = *core::ptr::addr_of!(FIX);
+            if let Some((b0, b1)) = fix {
+                out[0] = b0;
+                out[1] = b1;
+            }
             let e = &mut t.e[t.n];
             e.alg = algorithm;
             e.len = data.len();
@@ -163,7 +171,40 @@ pub mod digest_stub {
             }
             e.out = out;
             t.n += 1;
+            *core::ptr::addr_of_mut!(LAST) = out;
+            *core::ptr::addr_of_mut!(LAST_LEN) = algorithm.output_len();
             core::mem::transmute::<Mirror, Digest>(Mirror { algorithm, value: out })
+        }
+    }
+
+    /// The output of the most recent `digest` call, in a typed static (constants survive here).
+    pub static mut LAST: [u8; 64] = [0; 64];
+    pub static mut LAST_LEN: usize = 0;
+
+    /// S2b: `<Digest as AsRef<[u8]>>::as_ref` -> the bytes of the most recent `digest` call, read from
+    /// the typed static instead of from the transmuted `Digest` (whose bytes CBMC no longer
+    /// constant-propagates). rcgen reads every digest right after computing it; that the value
+    /// asked about really is the most recent one is assumed, so another calling pattern makes the
+    /// query vacuous (reported as inconclusive), never a wrong verdict.
+    pub fn as_ref_stub(d: &Digest) -> &[u8] {
+        unsafe {
+            let m: &Mirror = &*(d as *const Digest as *const Mirror);
+            let last = &*core::ptr::addr_of!(LAST);
+            let n = *core::ptr::addr_of!(LAST_LEN);
+            let mut k = 0;
+            while k < 64 {
+                kani::assume(k >= n || m.value[k] == last[k]);
+                k += 1;
+            }
+            &last[..n]
+        }
+    }
+
+    pub static mut FIX: Option<(u8, u8)> = None;
+    /// Every fresh digest output starts with the bytes (b0, b1); the other 62 bytes stay symbolic.
+    pub fn fix_first_bytes(b0: u8, b1: u8) {
+        unsafe {
+            *core::ptr::addr_of_mut!(FIX) = Some((b0, b1));
         }
     }
 
